@@ -111,6 +111,23 @@ def world_bkg(spec, d, s):
     return pd
 
 
+def well_formed(spec, d, s):
+    """hypothesis `WellFormed` of c06_no_truncation, checked on the leaf tables the model is given: every signal block of a
+    trial is as long as the trial's background array (a violation is a fixture bug: MachineryError)"""
+    key = (tuple(sorted((k, str(v)) for k, v in spec.items() if k in ('K', 'fields', 'scale', 'norm'))), d, s)
+    if key in _WF:
+        return
+    from harness.core import MachineryError
+    n = len(world_bkg(spec, d, s))
+    g = float(grid_values(spec)[3])
+    if any(len(world_man(spec, d, s, k, g)) != n for k in range(spec['K'])):
+        raise MachineryError('C06 fixture: leaf tables are not well-formed for %r' % (key,))
+    _WF.add(key)
+
+
+_WF = set()
+
+
 # ---- the real object graph ----------------------------------------------------------------------
 
 class Graph(object):
@@ -148,13 +165,15 @@ def yields(spec):
     return Y, {'gamma': lambda params: np.array([[0.1 * (j + 1)] * K for j in range(J)])}
 
 
-def build(spec, d, s):
-    """Fresh object graph, trial initialised with data set d for source set s.
+def build(spec, d, s, cascade=True):
+    """cascade=False: the object graph as constructed, *before* the first initialize_for_new_trial.
+    Fresh object graph, trial initialised with data set d for source set s.
     spec['graph'] == 'i3': the PDFRatioProduct graph around the real SplinedI3EnergySigSetOverBkgPDFRatio (build_i3).
     spec['product'] in (None, 'first', 'second'): the interpolating ratio is multiplied (PDFRatioProduct) with a
     parameter-free ratio that hands out its stored array itself, as first / second factor."""
     if spec.get('graph') == 'i3':
         return build_i3(spec, d, s)
+    well_formed(spec, d, s)
     from skyllh.core.backgroundpdf import BackgroundMultiDimGridPDF
     from skyllh.core.binning import BinningDefinition
     from skyllh.core.interpolate import (Linear1DGridManifoldInterpolationMethod,
@@ -289,7 +308,8 @@ def build(spec, d, s):
     llhs = [single] + second_dataset(G, spec, sdw)
     multi = fx.make_multi_llhratio(cfg, pmm, sdw, dswf, llhs)
     G.multi = multi
-    multi.initialize_for_new_trial()
+    if cascade:
+        multi.initialize_for_new_trial()
     return G
 
 
@@ -339,6 +359,44 @@ def op_init(G, d):
     G.tdm.initialize_trial(shg_mgr=G.shg_mgr, pmm=G.pmm, events=G.events, n_events=N_OF[G.d])
     _init2(G, True)
     G.multi.initialize_for_new_trial()
+
+
+def op_tdm_init(G, d):
+    """TrialDataManager.initialize_trial alone (new events array) — without the initialize_for_new_trial cascade"""
+    G.d = d
+    G.events = events_of(G, d)
+    G.tdm.initialize_trial(shg_mgr=G.shg_mgr, pmm=G.pmm, events=G.events, n_events=N_OF[G.d])
+    _init2(G, True)
+
+
+def op_llh_init(G):
+    """LLHRatio.initialize_for_new_trial alone: the cascade down to the PDF sets"""
+    G.multi.initialize_for_new_trial()
+
+
+def op_change_shg(G, s):
+    """change_shg_mgr alone (new SourceHypoGroupManager with new source objects), no new trial"""
+    G.s = s
+    G.sources = make_source_list(dict(K=len(G.sources)), s)
+    G.shg_mgr = fx.make_shg_mgr(G.cfg, G.sources)
+    if G.services is not None:
+        G.services[0].change_shg_mgr(G.shg_mgr)
+    G.multi.change_shg_mgr(G.shg_mgr)
+
+
+def ak_of(spec, s, xs):
+    """a_k of the first dataset, computed without skyllh: source weight x detector signal yield"""
+    K = spec['K']
+    (Y, dY) = yields(spec)
+    if callable(Y):
+        g = np.array(xs if len(xs) == K else [xs[0]] * K, dtype=np.float64)
+        Y = Y({'gamma': g})
+    return [float((1.0 + 0.5 * k) * Y[0][k]) for k in range(K)]
+
+
+def one_plus_alpha():
+    from skyllh.core.llhratio import ZeroSigH0SingleDatasetTCLLHRatio
+    return float(ZeroSigH0SingleDatasetTCLLHRatio._one_plus_alpha)
 
 
 def op_reinit_same(G):
@@ -415,8 +473,23 @@ def op_evaluate(G, ns, xs):
         else:
             G.fp[:] = fp
         fp = G.fp
-    (llh, grads) = G.multi.evaluate(fp)
-    (llh, grads) = (float(llh), np.array(grads, dtype=np.float64))
+    # argument forms of the caller: memory layout / writability of the array handed in, explicit src_params_recarray
+    form = G.spec.get('fp_form')
+    kw = {}
+    if form == 'strided':
+        buf = np.full((2 * len(fp),), np.nan)
+        buf[::2] = fp
+        fp = buf[::2]                      # a non-contiguous view
+    elif form == 'readonly':
+        fp = np.array(fp)
+        fp.setflags(write=False)           # writing into the caller's array would raise
+    elif form == 'recarray':
+        kw['src_params_recarray'] = G.pmm.create_src_params_recarray(gflp_values=fp)
+    (llh, grads) = G.multi.evaluate(fp, **kw)
+    (llh, grads_ret) = (float(llh), grads)
+    grads = np.array(grads, dtype=np.float64)
+    if G.spec.get('scribble') and isinstance(grads_ret, np.ndarray) and grads_ret.flags.writeable:
+        grads_ret[...] = np.nan            # the caller overwrites the array it was handed out: must not be a live view
     if G.kind == 'i3':
         return dict(llh=float(llh), grads=[float(v) for v in grads], ratio=[], grad=[], other_zero=True,
                     interp_hit=None, pd_miss=None, bkg_miss=None)
